@@ -202,7 +202,29 @@ def entry_points():
             productmd.discinfo.DiscInfo().loads("\n".join(lines))
         return f
 
+    def image_field(field):
+        def f(s):
+            from . import images_adapter as A
+            m = IM.Images()
+            img = A.make_image(m, A.image_fields("i", "I1", "c1", 0))
+            setattr(img, field, s)
+            img.validate()
+        return f
+
+    def rpms_add(which):
+        def f(s):
+            import productmd.rpms
+            m = productmd.rpms.Rpms()
+            if which == "nevra":
+                m.add("V", "x86_64", s, "p/x.rpm", None, "binary", "srcpkg-0:1-1.src")
+            else:
+                m.add("V", "x86_64", "pkg-0:1-1.x86_64", "p/x.rpm", None, "binary", s)
+        return f
+
     eps = {
+        "Image.volume_id": image_field("volume_id"), "Image.subvariant": image_field("subvariant"), "Image.path": image_field("path"),
+        "Image.type": image_field("type"), "Image.arch": image_field("arch"),
+        "Rpms.add(nevra)": rpms_add("nevra"), "Rpms.add(srpm_nevra)": rpms_add("srpm"),
         "TreeInfo.loads(legacy general/version)": ti_legacy("version"),
         "TreeInfo.loads(legacy general/family)": ti_legacy("family"),
         "TreeInfo.loads(legacy general/variant)": ti_legacy("variant"),
@@ -409,7 +431,7 @@ def run(ctx):
     suffixes = ["!", "", "-", ".", "\n", "é"]
     eps = sorted(entry_points())
     timer = Timer()
-    nshort = [24, 40] if ctx.quick else [12, 16, 20, 24, 28, 32, 40]
+    nshort = [24, 31, 40] if ctx.quick else [12, 16, 20, 24, 28, 30, 31, 32, 40]       # 31/32: the documented length limit of a volume id
     total = 0
     stalled_eps = set()
     try:
